@@ -311,8 +311,13 @@ package consensus
 //@   preimage excludes a.Signature
 //@ func (State).StorageProofLeafHash
 //@   abstract
+// the storage-proof challenge is the chain-derived seed reduced modulo the number of 64-byte
+// leaves of the file, a partial last leaf included
 //@ func (State).StorageProofLeafIndex
 //@   abstract
+//@   prop C07
+//@   asserts-only
+//@   at call:bits.Div64#1 assert @modulo-number-of-leaves $arg2 == (filesize + 63) / 64 && $arg2 != 0
 //@ func storageProofRoot
 //@   abstract
 //@ func (State).Commitment
